@@ -61,22 +61,24 @@ Proof. exact reader_old_flush_refuted. Qed.
 Print Assumptions C17_reader_old_flush_refuted.
 
 (* ---- RFC 4180 ---- *)
+(* Blank lines (a line without any byte) are not records: RFC 4180 does not mention them, GlareDB's documentation is
+   silent, csv_core documents that it ignores them; the spec (model/Csv.v rfc4180, nonblank) follows that. *)
 (* 6. The reader returns exactly the field contents of every RFC-4180 encoding, the last record with OR WITHOUT line
    terminator: any per-field choice quoted/bare (quoted fields with embedded delimiter, doubled quote, CR, LF), any
-   per-record choice LF/CRLF, any bytes (Unicode) in fields; blank records (one bare empty field) excluded, no BOM. *)
+   per-record choice LF/CRLF, any bytes (Unicode) in fields, blank lines anywhere (skipped); no BOM. *)
 Theorem C17_reader_decodes_encoding : forall d recs last,
   dialect_ok d = true ->
-  forallb (fun r => record_ok d (snd r) && negb (blank (snd r))) recs = true ->
+  forallb (fun r => record_ok d (snd r)) recs = true ->
   match last with Some fs => record_ok d fs && negb (blank fs) = true | None => True end ->
   strip_bom rdr_init (enc_file_open d recs last) = enc_file_open d recs last ->
-  run_reader d (enc_file_open d recs last) = Some (contents_open recs last).
+  run_reader d (enc_file_open d recs last) = Some (contents_open (nonblank recs) last).
 Proof. exact reader_decodes_encoding. Qed.
 Print Assumptions C17_reader_decodes_encoding.
 
-(* 6a. the reference parser reads back every encoding (blank records included): the spec is not vacuous *)
+(* 6a. the reference parser reads back every encoding: the spec is not vacuous *)
 Theorem C17_rfc4180_decodes_encoding : forall d recs, dialect_ok d = true ->
   forallb (fun r => record_ok d (snd r)) recs = true ->
-  rfc4180 d (enc_file d recs) = contents recs.
+  rfc4180 d (enc_file d recs) = contents (nonblank recs).
 Proof. exact rfc4180_decodes_encoding. Qed.
 Print Assumptions C17_rfc4180_decodes_encoding.
 
@@ -87,82 +89,105 @@ Theorem C17_reader_refines_rfc4180 : forall d bs,
 Proof. exact reader_refines_rfc4180. Qed.
 Print Assumptions C17_reader_refines_rfc4180.
 
-(* 6c. the decoder WITHOUT the end-of-input signal (what ReadCsv::bind does with the inference sample) on terminated
-   encodings, and its refutation on "a,b\n1,2" (known finding inference-sample-without-end-of-input) *)
+(* 6c. the inference sample (ReadCsv::bind, DialectOptions::infer_from_sample_with_eof): when the sample reached the
+   end of the file it is decoded exactly like the reader decodes the file (so 6, 6b hold for it); when it is a proper
+   prefix of the file, it is the decoder without end-of-input signal, which returns the RFC-4180 records of
+   terminated encodings.  Regression witness "a,b\n1,2": without the signal (the code before the repair) the last
+   record was not sampled. *)
+Theorem C17_sample_at_eof_is_reader : forall d bs, run_sample d true bs = run_reader d bs.
+Proof. exact run_sample_eof_reader. Qed.
+Print Assumptions C17_sample_at_eof_is_reader.
+
 Theorem C17_dfa_refines_rfc4180 : forall d bs,
   dialect_ok d = true -> well_formed d bs -> strip_bom rdr_init bs = bs ->
-  run_dfa d bs = Some (rfc4180 d bs).
+  run_sample d false bs = Some (rfc4180 d bs).
 Proof. exact dfa_refines_rfc4180. Qed.
 Print Assumptions C17_dfa_refines_rfc4180.
 
-Theorem C17_sample_unterminated_last_record_refuted :
+Theorem C17_sample_unterminated_last_record :
   exists d bs, ends_with_terminator bs = false /\
     run_dfa d bs = Some [[[97];[98]]]%N /\ rfc4180 d bs = [[[97];[98]]; [[49];[50]]]%N /\
-    run_reader d bs = Some (rfc4180 d bs).
-Proof. exact sample_unterminated_last_record_refuted. Qed.
-Print Assumptions C17_sample_unterminated_last_record_refuted.
+    run_reader d bs = Some (rfc4180 d bs) /\ run_sample d true bs = Some (rfc4180 d bs).
+Proof. exact sample_unterminated_last_record. Qed.
+Print Assumptions C17_sample_unterminated_last_record.
 
-(* 7. REFUTED for blank lines (known finding blank-line-skipped): csv_core skips them, RFC 4180 reads a record of one
-   empty field. *)
-Theorem C17_blank_line_refuted :
-  exists d bs, ends_with_terminator bs = true /\
-    run_dfa d bs = Some [[[97]]; [[98]]]%N /\ rfc4180 d bs = [[[97]]; [[]]; [[98]]]%N.
-Proof. exact blank_line_refuted. Qed.
-Print Assumptions C17_blank_line_refuted.
+(* 7. blank lines: "a\n\nb\n" has two records for the reader and for the spec; a quoted empty field on a line of its
+   own ("a\n\"\"\nb\n") is a record of one empty field for both *)
+Theorem C17_blank_line_skipped :
+  exists d bs bs', ends_with_terminator bs = true /\
+    run_reader d bs = Some [[[97]]; [[98]]]%N /\ rfc4180 d bs = [[[97]]; [[98]]]%N /\
+    run_reader d bs' = Some [[[97]]; [[]]; [[98]]]%N /\ rfc4180 d bs' = [[[97]]; [[]]; [[98]]]%N.
+Proof. exact blank_line_skipped. Qed.
+Print Assumptions C17_blank_line_skipped.
 
 (* ---- inferred types ---- *)
-(* 8. FULL STATEMENT "the column type is the narrowest candidate accepting every sampled value, independent of the row
-   order" is REFUTED: Boolean words are not valid Int64, "t","1" gives Int64 (rejecting "t"), "1","t" gives Utf8. *)
-Theorem C17_candidate_order_irrelevant_refuted :
-  exists vs1 vs2, Permutation vs1 vs2 /\ CsvInferProofs.col_cand vs1 <> CsvInferProofs.col_cand vs2.
-Proof. exact candidate_order_irrelevant_refuted. Qed.
-Print Assumptions C17_candidate_order_irrelevant_refuted.
-
-Theorem C17_candidate_is_narrowest_refuted :
-  exists vs v, In v vs /\ v <> [] /\ is_valid (CsvInferProofs.col_cand vs) v = false.
-Proof. exact candidate_is_narrowest_refuted. Qed.
-Print Assumptions C17_candidate_is_narrowest_refuted.
-
-(* 8a. both hold when no sampled value is a boolean word (and a column of boolean words / empties is Boolean) *)
-Theorem C17_candidate_is_narrowest_partial : forall vs, Forall (fun v => is_bool v = false) vs ->
-  let c := CsvInferLattice.col_cand vs in
+(* 8. FULL STATEMENT: the type inferred for a column (col_type: widen along Boolean < Int64 < Float64 < Utf8, then
+   re-validate) accepts every sampled non-empty value, every narrower type rejects one of them, and the row order is
+   irrelevant. *)
+Theorem C17_candidate_is_narrowest : forall vs,
+  let c := col_type vs in
   c <> CTimestamp /\
   (forall v, In v vs -> v <> [] -> is_valid c v = true) /\
   (forall c', (cand_rank c' < cand_rank c)%nat -> c' <> CTimestamp ->
      exists v, In v vs /\ v <> [] /\ is_valid c' v = false).
-Proof. exact candidate_is_narrowest_strong. Qed.
-Print Assumptions C17_candidate_is_narrowest_partial.
+Proof. exact candidate_is_narrowest. Qed.
+Print Assumptions C17_candidate_is_narrowest.
+
+Theorem C17_candidate_order_irrelevant : forall vs1 vs2, Permutation vs1 vs2 -> col_type vs1 = col_type vs2.
+Proof. exact candidate_order_irrelevant. Qed.
+Print Assumptions C17_candidate_order_irrelevant.
 
 Theorem C17_candidate_all_bool : forall vs, Forall (fun v => v = [] \/ is_bool v = true) vs ->
-  CsvInferLattice.col_cand vs = CBool.
+  col_type vs = CBool.
 Proof. exact candidate_all_bool. Qed.
 Print Assumptions C17_candidate_all_bool.
 
-Theorem C17_candidate_order_irrelevant_partial : forall vs1 vs2, Permutation vs1 vs2 ->
-  Forall (fun v => is_bool v = false) vs1 -> CsvInferLattice.col_cand vs1 = CsvInferLattice.col_cand vs2.
-Proof. exact candidate_order_irrelevant_partial. Qed.
-Print Assumptions C17_candidate_order_irrelevant_partial.
+(* 8a. col_type is what infer_schema computes per column (rectangular sample; ragged rows fail the scan anyway) *)
+Theorem C17_schema_column_type : forall first rest s j,
+  infer_schema (first :: rest) = Some s ->
+  Forall (fun r => length r = length first) rest -> (j < length first)%nat ->
+  nth j (col_types s) CUtf8 = col_type (map (fun r => nth j r []) rest).
+Proof. exact schema_column_type. Qed.
+Print Assumptions C17_schema_column_type.
 
-(* 9. header decision as implemented: row 0 is a header iff some field of it — EMPTY ones included — fails its column's
-   candidate; the refutation: a headerless file with a NULL in the first row of an Int64 column gets a header. *)
+(* 8b. regression witness about the OLD definition (the chain without the re-validation pass): "t","1" gave Int64
+   (rejecting the sampled "t"), "1","t" gave Utf8; now Utf8 both ways *)
+Theorem C17_candidate_old_refuted :
+  exists vs1 vs2, Permutation vs1 vs2 /\ col_type_old vs1 <> col_type_old vs2 /\
+    (exists v, In v vs1 /\ v <> [] /\ is_valid (col_type_old vs1) v = false) /\
+    col_type vs1 = CUtf8 /\ col_type vs2 = CUtf8.
+Proof. exact candidate_old_refuted. Qed.
+Print Assumptions C17_candidate_old_refuted.
+
+(* 9. header decision: row 0 is a header iff some NON-EMPTY field of it fails its column's type; a first row that
+   reads as a data row is therefore never taken as a header.  Regression witness: ",2\n3,4\n" had a header under the
+   old rule (empty fields voting). *)
 Theorem C17_header_decision_spec : forall first rest s,
   infer_schema (first :: rest) = Some s ->
-  col_types s = fold_left update_row rest (repeat CBool (length first)) /\
-  (has_header s = true <-> exists f c, In (f, c) (combine first (col_types s)) /\ is_valid c f = false).
+  col_types s = fold_left revalidate_row rest (fold_left update_row rest (repeat CBool (length first))) /\
+  (has_header s = true <-> exists f c, In (f, c) (combine first (col_types s)) /\ f <> [] /\ is_valid c f = false).
 Proof. exact header_decision_spec. Qed.
 Print Assumptions C17_header_decision_spec.
 
-Theorem C17_header_null_first_row_refuted :
-  exists recs s, infer_schema recs = Some s /\ has_header s = true /\
-    Forall (fun r => Forall (fun f => f = [] \/ is_int f = true) r) recs.
-Proof. exact header_null_first_row_refuted. Qed.
-Print Assumptions C17_header_null_first_row_refuted.
+Theorem C17_typed_first_row_not_header : forall first rest s,
+  infer_schema (first :: rest) = Some s ->
+  (forall f c, In (f, c) (combine first (col_types s)) -> f = [] \/ is_valid c f = true) ->
+  has_header s = false.
+Proof. exact typed_first_row_not_header. Qed.
+Print Assumptions C17_typed_first_row_not_header.
+
+Theorem C17_header_null_first_row_old_refuted :
+  exists recs cs s, infer_schema_old recs = Some (true, cs) /\
+    Forall (fun r => Forall (fun f => f = [] \/ is_int f = true) r) recs /\
+    infer_schema recs = Some s /\ has_header s = false /\ col_types s = [CInt; CInt].
+Proof. exact header_null_first_row_old_refuted. Qed.
+Print Assumptions C17_header_null_first_row_old_refuted.
 
 (* 10. dialect choice: the chosen dialect is the first in source order that maximises the field count among the
-   dialects decoding >= 2 records of equal width >= 2 *)
-Theorem C17_dialect_choice_spec : forall sample d, infer_dialect sample = Some (Some d) ->
-  exists n l1 l2, dialects = l1 ++ d :: l2 /\ qualifies sample d n /\
-    (forall d' n', In d' dialects -> qualifies sample d' n' -> n' <= n) /\
-    (forall d' n', In d' l1 -> qualifies sample d' n' -> n' < n).
+   dialects decoding >= 2 records of equal width >= 2 from the sample *)
+Theorem C17_dialect_choice_spec : forall sample eof d, infer_dialect sample eof = Some (Some d) ->
+  exists n l1 l2, dialects = l1 ++ d :: l2 /\ qualifies sample eof d n /\
+    (forall d' n', In d' dialects -> qualifies sample eof d' n' -> n' <= n) /\
+    (forall d' n', In d' l1 -> qualifies sample eof d' n' -> n' < n).
 Proof. exact dialect_choice_spec. Qed.
 Print Assumptions C17_dialect_choice_spec.
